@@ -440,7 +440,7 @@ func gRunCase(t *testing.T, c *gCase) []string {
 			mu.Unlock()
 			logf("ended %s", cls)
 		}()
-		lastState, lastReg := "disconnected", "-"
+		lastState, lastReg, lastBuf := "disconnected", "-", "-"
 		sample := func() {
 			st := h.state.Get().String()
 			var es []string
@@ -460,6 +460,20 @@ func gRunCase(t *testing.T, c *gCase) []string {
 			if rg != lastReg {
 				lastReg = rg
 				logf("reg %s", rg)
+			}
+			// packets queued for the sleeping client (read at quiescence)
+			var qs []string
+			for _, qp := range h.pktBuffer {
+				b, _ := qp.Pack()
+				qs = append(qs, ghex(b))
+			}
+			bf := "-"
+			if len(qs) > 0 {
+				bf = strings.Join(qs, ",")
+			}
+			if bf != lastBuf {
+				lastBuf = bf
+				logf("buf %s", bf)
 			}
 		}
 		synctest.Wait()
@@ -588,11 +602,14 @@ func TestVerifGateway(t *testing.T) {
 	var cases []*gCase
 	cases = append(cases, gReadCases(os.Getenv("VERIF_CORPUS"))...)
 	cases = append(cases, gReadCases(os.Getenv("VERIF_CASES"))...)
+	prog := os.Getenv("VERIF_OUT") + ".running"
 	for _, c := range cases {
+		os.WriteFile(prog, []byte(c.header+"\n"+strings.Join(c.events, "\n")+"\n"), 0o644)
 		lines := gRunCase(t, c)
 		fmt.Fprintln(w, c.header)
 		for _, l := range lines {
 			fmt.Fprintln(w, l)
 		}
 	}
+	os.Remove(prog)
 }
